@@ -269,7 +269,7 @@ def served_case():
     return st.fixed_dictionaries({
         "capacity": st.integers(1, 3),
         "rate": st.sampled_from(["0", "0.5", "1"]),
-        "events": st.lists(st.tuples(st.sampled_from([0, 0, 0.25, 1, 3]), st.sampled_from(["a", "a", "b"]),
+        "events": st.lists(st.tuples(st.sampled_from([0, 0, 0.25, 1, 3]), st.sampled_from(["a", "a", "b", "c"]),
                                      st.sampled_from(["stay", "stay", "gone-at-once", "gone-later"]), st.booleans()),
                            min_size=2, max_size=30),
     })
@@ -286,7 +286,7 @@ def run_served(case: dict):
     from vlib.faketransport import FakeTransport
 
     cap, rate = case["capacity"], Fraction(case["rate"])
-    ADDR = {"a": "192.0.2.1", "b": "2001:db8::2"}
+    ADDR = {"a": "192.0.2.1", "b": "2001:db8::2", "c": "2001:db8::3"}
 
     async def scenario(loop):
         old = mwmod.time
@@ -316,7 +316,7 @@ def run_served(case: dict):
             mwmod.time = old
 
     sim, trs = vloop.run(scenario)
-    served = {"a": [], "b": []}
+    served = {"a": [], "b": [], "c": []}
     for e in sim.log:
         if e[0] == "handler":
             served[e[2].rsplit("?", 1)[1]].append(Fraction(e[1]).limit_denominator(1000))
@@ -332,8 +332,15 @@ def run_served(case: dict):
                     return viol("window-bound-exceeded-at-the-handler",
                                 f"address {who}: {j - i + 1} requests reached a handler within {float(ts[j] - ts[i])} s; capacity {cap}, "
                                 f"refill {rate}/s allow at most {float(cap + rate * (ts[j] - ts[i]))}", **info)
+    seen = set()
     for tr, ev in zip(trs, case["events"]):
         S = tr.written()
+        if ev[1] not in seen:
+            seen.add(ev[1])
+            if ev[2] == "stay" and not S.startswith(b"20 "):
+                # a fresh address has its full allowance (capacity >= 1), whatever the other addresses did
+                return viol("first-request-of-an-address-refused", f"address {ev[1]} ({ADDR[ev[1]]}) got {S[:50]!r} on its first request; "
+                            f"earlier traffic came from other addresses only", **info)
         if ev[2] == "stay" and not (S.startswith(b"20 ") or S == b"44 Rate limit exceeded. Retry after 30 seconds\r\n"):
             return viol("unexpected-answer", f"{S[:60]!r}", **info)
     return ok(**info)
